@@ -17,7 +17,7 @@ def cacheP : P (Option (Cache Key Float)) :=
   optOf (do
     let cap ← nat
     let precs ← listOf int
-    pure { capacity := cap, keyOf := floatKey precs, entries := [] })
+    pure { capacity := cap, keyOf := floatKey precs, entries := [], arityOk := precs.length == 2 })
 
 /-- a prediction record.  `aff`: the harness's stub `PredictionModel`, affine in speed and grade (in
 the model's own units), evaluated as `a0 + a1 * speed + a2 * grade`.  `tbl`: a real model file loaded
@@ -87,6 +87,7 @@ def errClass : Err → String
   | .gradeTable => "failure"
   | .timeCreate => "units"
   | .build => "build"
+  | .cache => "cache"
   | .haversine => "failure"
   | .headingTable => "failure"
 
@@ -147,7 +148,8 @@ def routeCase : P String := do
       let (kind, caches) := match sel with
         | some (k, _, c) => (k, c)
         | none => (Kind.ice, ({ main := none, sustain := none } : Caches Key Float))
-      pure (kind, vres, caches, built, malformed)
+      let cachesOk := lib.all fun (p : Nat × Kind × Vehicle Float × Caches Key Float) => cachesConfigOk p.2.2.2
+      pure (kind, vres, caches, built, malformed || !cachesOk)
     else
       let (kind, v0, caches) ← vehicleP
       let q ← queryP
